@@ -199,6 +199,14 @@ def run_case(ctx, shape, recs, *, serial=True, seed=0, timeout=600.0):
             "stale": stale, "model_outcomes": sorted({r["outcome"] for r in recs})}
     obs, exc, jobs = run_real(ctx, shape, plan_rec, limit=limit, dummy=dummy, serial_seed=(seed if serial else None),
                               delay_seed=seed, timeout=timeout)
+    if exc is None and obs["outcome"] == "hang":
+        # a hang is reported only if it is reproducible: same plan, same seeds, longer idle window
+        ctx.count("hangs_detected_first_attempt")
+        obs2, exc2, jobs = run_real(ctx, shape, plan_rec, limit=limit, dummy=dummy, serial_seed=(seed if serial else None),
+                                    delay_seed=seed, timeout=timeout, stall=20.0)
+        if exc2 is None and obs2["outcome"] != "hang":
+            ctx.count("extra:hang_not_reproduced(second attempt terminated)")
+        obs, exc = obs2, exc2
     if isinstance(exc, TimeoutError):
         raise _t.MachineryError("real run exceeded the outer time limit without being detected as hung (%s %s)" % (shape, plan_rec))
     if exc is None and obs["outcome"] == "hang":
